@@ -751,10 +751,18 @@ func C20(c *core.Ctx) {
 	// third search, deeper, over the operations that put wildcard siblings under one level
 	// and take them away again (subscribe a/+,b / a/# / a/+,a/c; unsubscribe a/+ / a/#;
 	// acknowledgements; a delivery on a/c)
-	var sib, main []int
+	var sib, main, dollar []int
 	for i, o := range ops {
-		if !((o.kind == "api:sub" || o.kind == "api:unsub") && o.filters[0] == "a/#") {
+		isDollar := o.kind == "srv:pub" && o.topic == "$SYS/x"
+		if !((o.kind == "api:sub" || o.kind == "api:unsub") && o.filters[0] == "a/#") && !isDollar {
 			main = append(main, i) // the two a/# operations belong to the third search only
+		}
+		// fourth search, every sequence: subscribe a, SUBACK, deliveries on a and on $SYS/x,
+		// unsubscribe a, UNSUBACK
+		switch {
+		case isDollar, o.kind == "api:sub" && len(o.filters) == 1 && o.filters[0] == "a", o.kind == "api:unsub" && len(o.filters) == 1 && o.filters[0] == "a",
+			o.kind == "srv:suback", o.kind == "srv:unsuback", o.kind == "srv:pub" && o.payload == "m0":
+			dollar = append(dollar, i)
 		}
 		switch {
 		case o.kind == "api:sub" && o.filters[0] != "a", o.kind == "api:unsub" && len(o.filters) == 1 && o.filters[0] != "a",
@@ -767,7 +775,7 @@ func C20(c *core.Ctx) {
 		depth int
 		dedup bool
 		sel   []int
-	}{{"dispatch", d1, true, main}, {"dispatch-sequences", d2, false, main}, {"dispatch-wildcard-siblings", d1 + 1, true, sib}} {
+	}{{"dispatch", d1, true, main}, {"dispatch-sequences", d2, false, main}, {"dispatch-wildcard-siblings", d1 + 1, true, sib}, {"dispatch-dollar-topic", d2 + 2, false, dollar}} {
 		s := s
 		mapped := func(h []int) []int {
 			if s.sel == nil {
@@ -837,6 +845,10 @@ func dispatchOps(thorough bool) []cop {
 	ops = append(ops, cop{kind: "api:sub", filters: []string{"a/+", "a/c"}, qoss: []byte{0, 1}})
 	// a second wildcard next to a/+ under the same level, and its removal
 	ops = append(ops, cop{kind: "api:sub", filters: []string{"a/#"}, qoss: []byte{1}}, cop{kind: "api:unsub", filters: []string{"a/#"}})
+	// a topic that begins with '$' matches no filter that begins with a wildcard, and the
+	// delivery before it was for somebody (fourth search only)
+	// (what a filter that begins with a wildcard does with such a topic is outside the properties)
+	ops = append(ops, cop{kind: "srv:pub", topic: "$SYS/x", qos: 0, payload: "m5"})
 	if thorough {
 		// a topic nobody subscribes
 		ops = append(ops, cop{kind: "srv:pub", topic: "c", qos: 0, payload: "m3"})
